@@ -199,3 +199,48 @@ def add_empty_row_headers(members):
                                 o.headers.extend(hs)
                                 changed.add(n)
     return [(n, files[n].to_buffer() if n in changed else d) for n, d in members], added
+
+
+def add_empty_row_records(members):
+    """Give every row of every tile an explicit row record (a row without one is an empty row; a record may also hold no cells),
+    in row order.  Returns the number of records added."""
+    from numbers_parser.iwafile import IWAFile
+    out, added = [], 0
+    for n, d in members:
+        f = None
+        if n.endswith(".iwa"):
+            try:
+                f = IWAFile.from_buffer(d, n)
+            except Exception:  # noqa: BLE001
+                f = None
+        changed = False
+        if f is not None:
+            for ch in f.chunks:
+                for ar in ch.archives:
+                    for o in ar.objects:
+                        if type(o).__name__ != "Tile" or not len(o.rowInfos) or not o.last_saved_in_BNC:
+                            continue
+                        have = {ri.tile_row_index for ri in o.rowInfos}
+                        top = max(max(have) + 1, o.numrows)
+                        missing = [r for r in range(top) if r not in have]
+                        if not missing:
+                            continue
+                        recs = [type(ri).FromString(ri.SerializeToString()) for ri in o.rowInfos]
+                        tmpl = recs[0]
+                        for r in missing:
+                            ri = type(tmpl).FromString(tmpl.SerializeToString())
+                            ri.tile_row_index, ri.cell_count = r, 0
+                            ri.cell_storage_buffer = b""
+                            ri.cell_offsets = b"\xff\xff" * (len(tmpl.cell_offsets) // 2)
+                            if tmpl.HasField("cell_storage_buffer_pre_bnc"):
+                                ri.cell_storage_buffer_pre_bnc = b""
+                            if tmpl.HasField("cell_offsets_pre_bnc"):
+                                ri.cell_offsets_pre_bnc = b"\xff\xff" * (len(tmpl.cell_offsets_pre_bnc) // 2)
+                            recs.append(ri)
+                            added += 1
+                        recs.sort(key=lambda ri: ri.tile_row_index)
+                        del o.rowInfos[:]
+                        o.rowInfos.extend(recs)
+                        changed = True
+        out.append((n, f.to_buffer() if changed else d))
+    return out, added
